@@ -359,3 +359,62 @@ def type_mutate(rng, text):
         toks = [l for l in py_lex('\n'.join(lines)) if not l.startswith('#')]
         if not toks: break
     return '\n'.join(lines)
+
+
+# ---------------------------------------------------------------------------------------- exit modes
+def skeleton(block):
+    """control skeleton of a typechecked block, every CodeBlock annotated with the mode the real
+    typechecker recorded (ExitMode value)"""
+    from hidc import ast
+    from hidc.lexer.tokens import Flavor
+
+    def st(s):
+        t = type(s)
+        if t is ast.CodeBlock: return '(block %d %s)' % (s.exit_modes().value, ' '.join(st(x) for x in s.stmts))
+        if t is ast.IfBlock: return '(if %s %s)' % (st(s.body), st(s.else_block))
+        if t is ast.LoopBlock:
+            tc = isinstance(s.cond, ast.BoolValue) and s.cond.data
+            return '(loop %d %s %s)' % (1 if tc else 0, st(s.body), st(s.cont))
+        if t is ast.TryBlock: return '(try %s %s)' % (st(s.body), st(s.handler.body))
+        if t is ast.PreemptBlock: return '(preempt %s)' % st(s.body)
+        if t is ast.ReturnStatement: return '(ret)'
+        if t is ast.BreakStatement: return '(brk)'
+        if t is ast.ContinueStatement: return '(cont)'
+        if t is ast.FuncCall:
+            if s.func.flavor == Flavor.DEFEAT:
+                return '(defeat)' if (s.func.base_name == 'is_defeat' and not s.args) else '(defcall)'
+            if s.func.flavor == Flavor.NONE and s.func.base_name in ('all_is_win', 'all_is_broken') and not s.args: return '(term)'
+        return '(other)'
+    return st(block)
+
+
+def exit_suite(ctx, texts):
+    """Hid/ExitModes.lean `modes` == the mode recorded by CodeBlock.evaluate for every block of
+    every function of every accepted program"""
+    from hidc.lexer import SourceCode
+    from hidc.parser import parse
+    from hidc.ast import Environment
+    lines = []
+    owners = []
+    for k, t in texts.items():
+        try:
+            env = Environment.empty()
+            prog = parse(SourceCode.from_string(t)).evaluate(env)
+        except Exception:
+            continue
+        for f in prog.func_decls:
+            # the appended implicit return changed the recorded mode of the outermost block only
+            lines.append(skeleton(f.body)); owners.append((k, f.name.name))
+    with tempfile.NamedTemporaryFile('w', suffix='.txt', delete=False) as f:
+        f.write('\n'.join(lines) + '\n'); name = f.name
+    p = subprocess.run([hidlib.HIDMODEL, 'exitmodes', name], capture_output=True, text=True, timeout=600)
+    os.unlink(name)
+    res = [l for l in p.stdout.split('\n') if l]
+    bad = [(o, l, r) for o, l, r in zip(owners, lines, res) if r != 'ok']
+    nblocks = sum(l.count('(block') for l in lines)
+    ctx.stats['exit_correspondence'] = dict(functions=len(lines), blocks=nblocks, mismatches=len(bad))
+    if bad or len(res) != len(lines):
+        ctx.breaks.append(dict(kind='correspondence', name='exit: Hid/ExitModes.lean modes vs CodeBlock.evaluate',
+                               detail=repr([(o, r, l[:300]) for o, l, r in bad[:2]])[:1500]))
+    ctx.say('exit-mode correspondence: %d functions, %d blocks, %d mismatches' % (len(lines), nblocks, len(bad)))
+    return bad
